@@ -635,4 +635,122 @@ def specOutcome (ii : Indexed) (c : MockConfig) (acc : List MockExchange.Spec.Ev
       | some a => .insufficient a
       | none => .rejected
 
+/-! ## The manager's request timeout on a mock link (theorem review A, C04M-2)
+
+`add_mock` hands the `ExecutionManager` of every mock link a request timeout of ONE second
+(`DUMMY_EXECUTION_REQUEST_TIMEOUT`, builder.rs:97). The `MockExchange` executes an open request the
+moment it receives it (ledger debited, mock/mod.rs:106-117) but completes the client's oneshot — and
+broadcasts the balance / trade notifications — only `latency_ms` later (`respond_with_latency`,
+`send_notifications_with_latency`, mod.rs:176-229). With `latency_ms ≥ 1000` the manager's
+`RequestFuture` (execution/request.rs:51-56, `tokio::time::timeout`) expires first: the engine is
+handed the manager's OWN order snapshot `OpenFailed(Connectivity(Timeout))` under the request's key
+(`process_open_timeout`, manager.rs:400-416) — for an order the exchange HAS executed; the
+notifications still arrive afterwards. `mockOpen` / `sendOpen` above describe the exchange and the
+indexing of what it answers; this layer adds what the engine is actually handed. -/
+
+/-- `DUMMY_EXECUTION_REQUEST_TIMEOUT` (builder.rs:97) in milliseconds. -/
+def mockRequestTimeoutMs : Nat := 1000
+
+/-- State of the order snapshot as the ENGINE sees it: the indexed response of the client, or the
+manager's own `OpenFailed(Connectivity(Timeout))`. -/
+inductive Seen where
+  | response (o : OrderOutcome)
+  | timeout
+  deriving DecidableEq, Repr, Inhabited
+
+/-- What arrives on the merged account channel for one request, the manager's timeout included. -/
+structure SeenEvents where
+  order : Option (Nat × Nat × Seen)
+  balance : Option (Nat × Rat × Rat)
+  trade : Option (Nat × MockExchange.Side × Rat × Rat × Rat)
+  deriving DecidableEq, Repr, Inhabited
+
+/-- No timeout: the events as they are. -/
+def Events.seen (ev : Events) : SeenEvents :=
+  { order := ev.order.map fun k => (k.1, k.2.1, .response k.2.2), balance := ev.balance, trade := ev.trade }
+
+/-- The manager timed out: its own order snapshot under the REQUEST's key (engine indices, nothing to
+translate, never filtered); the notifications of the exchange are what they are. -/
+def Events.timedOut (ev : Events) (x i : Nat) : SeenEvents :=
+  { order := some (x, i, .timeout), balance := ev.balance, trade := ev.trade }
+
+/-- Does the answer of a mock exchange task (in the state AFTER the request) come too late for the
+manager? A task that is dead — it was dead already, or the request has just killed it — drops the
+client's oneshot at once (`ExchangeOffline`, no waiting). A living task answers `latency` ms after
+the request; the manager gives up after `mockRequestTimeoutMs`. At equality the timeout wins: both
+timers expire in the same tick and the manager's `Timeout` future is polled before the exchange's
+responder task has run (observed on the paused tokio clock; in real time the manager's timer is the
+older one). -/
+def answersLate (after : MockTask) : Bool :=
+  !after.dead && decide (mockRequestTimeoutMs ≤ after.st.latency)
+
+/-- The mock exchange task behind exchange index `x`, if that link is a mock link. -/
+def linkMock (e : Exec) (x : Nat) : Option MockTask :=
+  match e.txmap.find x with
+  | .error _ => none
+  | .ok l =>
+    match e.managers.find? (fun m => m.exchange == l.client) with
+    | none => none
+    | some mgr =>
+      match mgr.client with
+      | .live => none
+      | .mock chan => e.mocks.find? (fun m => m.chan == chan)
+
+inductive SeenResult where
+  | noTx
+  | closed
+  | managerPanic
+  | live (client : Nat) (name : Nat) (ev : SeenEvents)
+  | mock (client : Nat) (name : Nat) (ev : SeenEvents)
+  deriving DecidableEq, Repr, Inhabited
+
+/-- `Engine::send_request` on the built system, run to quiescence, as the ENGINE sees it: `sendOpen`,
+with the order snapshot of a mock link replaced by the manager's timeout when the exchange answers
+too late. The system state is `sendOpen`'s: the timeout undoes nothing. -/
+def sendOpenSeen (e : Exec) (o : Open) : Exec × SeenResult :=
+  let r := sendOpen e o
+  match r.2 with
+  | .noTx => (r.1, .noTx)
+  | .closed => (r.1, .closed)
+  | .managerPanic => (r.1, .managerPanic)
+  | .live c n ev => (r.1, .live c n ev.seen)
+  | .mock c n ev =>
+    let late := match linkMock r.1 o.exchange with
+      | some mt => answersLate mt
+      | none => false
+    (r.1, .mock c n (if late then ev.timedOut o.exchange o.instrument else ev.seen))
+
+/-! ## Composition: which requests of a history a mock exchange gets to see (theorem review A, C04M-1) -/
+
+/-- Instrument index `o.instrument` exists and belongs to exchange `ex` (executable form of `Own`). -/
+def ownB (ii : Indexed) (ex : Nat) (o : Open) : Bool :=
+  match ii.instruments[o.instrument]? with
+  | some x => x.value.exchange.value == ex
+  | none => false
+
+/-- The requests of a history `os` that the mock exchange behind exchange index `xi` (exchange id
+`ex`) gets to see, in order: those addressed to `xi`, up to the first one whose instrument is not an
+instrument of `ex` — that one makes the manager panic (manager.rs:261-266), its receiver is dropped
+and nothing addressed to `xi` is delivered any more. -/
+def routedTo (ii : Indexed) (ex xi : Nat) (os : List Open) : List Open :=
+  (os.filter fun o => o.exchange == xi).takeWhile (ownB ii ex)
+
+/-- Is the manager behind exchange index `xi` still running after the history `os`? -/
+def managerAlive (ii : Indexed) (ex xi : Nat) (os : List Open) : Bool :=
+  (os.filter fun o => o.exchange == xi).all (ownB ii ex)
+
+/-! ## Specification of the timeout (engine view) -/
+
+/-- What the engine must be handed as order state for a request that reaches the running mock
+exchange of `c`: the manager waits `mockRequestTimeoutMs`; an exchange configured with at least that
+latency is never heard in time, whatever it did with the order. -/
+def specSeen (c : MockConfig) (oc : OrderOutcome) : Seen :=
+  if mockRequestTimeoutMs ≤ c.latency then .timeout else .response oc
+
+/-- The system after a history of open requests (oldest first). -/
+def runAll (e : Exec) (os : List Open) : Exec := os.foldl (fun e o => (sendOpen e o).1) e
+
+/-- ... as the engine sees it; the same states (`Lemmas.MockInstruments.runAllSeen_eq`). -/
+def runAllSeen (e : Exec) (os : List Open) : Exec := os.foldl (fun e o => (sendOpenSeen e o).1) e
+
 end BarterModel.MockInstruments
